@@ -10,8 +10,13 @@ import SquidModel.Acl.DomainTreeLemmas
 namespace SquidModel.Acl.Domain
 open SquidModel.Acl SquidModel.Acl.Tree
 
-/-- the stored values are well-formed and lie one after the other (hence are pairwise disjoint) -/
-def Sorted (xs : List Bytes) : Prop := xs.Pairwise Before ∧ ∀ x ∈ xs, Valid x
+/-- `a` is stored in front of `b`: its interval ends before b's begins — or both are the single dot, which `Compare` does not
+recognise as a duplicate of itself (`matchDomainName(".", x)` sees an empty host): repeated `.` values are all stored -/
+def Before' (a b : Bytes) : Prop := Before a b ∨ (a = [DOT] ∧ b = [DOT])
+
+/-- the stored values do not begin with two dots and lie one after the other (hence are pairwise disjoint, except for
+repetitions of the single dot) -/
+def Sorted (xs : List Bytes) : Prop := xs.Pairwise Before' ∧ ∀ x ∈ xs, Wf x
 
 theorem Sorted.sublist {xs ys : List Bytes} (h : Sorted ys) (hs : xs.Sublist ys) : Sorted xs :=
   ⟨h.1.sublist hs, fun x hx => h.2 x (hs.subset hx)⟩
@@ -34,8 +39,12 @@ theorem Sorted.overlap_eq {xs : List Bytes} (h : Sorted xs) {a b : Bytes} (ha : 
     (hov : lo b < hi a ∧ lo a < hi b) : a = b := by
   rcases pairwise_mem_cases h.1 ha hb with h1 | h1 | h1
   · exact h1
-  · exact absurd hov.1 h1
-  · exact absurd hov.2 h1
+  · rcases h1 with h1 | ⟨h1, h2⟩
+    · exact absurd hov.1 h1
+    · rw [h1, h2]
+  · rcases h1 with h1 | ⟨h1, h2⟩
+    · exact absurd hov.2 h1
+    · rw [h1, h2]
 
 theorem size_eq_length {α : Type} (t : Tree α) : t.size = (inorder t).length := by
   induction t with
@@ -44,39 +53,44 @@ theorem size_eq_length {α : Type} (t : Tree α) : t.size = (inorder t).length :
 
 /-! ### the comparison callbacks are monotone along a sorted store -/
 
-theorem mono_compare {xs : List Bytes} (h : Sorted xs) {x : Bytes} (hx : Valid x) : Mono (compare x) xs := by
+theorem mono_compare {xs : List Bytes} (h : Sorted xs) {x : Bytes} (hx : Wf x) : Mono (compare x) xs := by
   refine List.Pairwise.imp_of_mem ?_ h.1
   intro a b ha hb hab
   have va := h.2 a ha
   have vb := h.2 b hb
-  constructor
-  · intro h1
-    rw [compare_neg_iff hx va] at h1
-    rw [compare_neg_iff hx vb]
-    intro hc
-    exact h1 (List.lt_trans hab.trans_lo hc)
-  · intro h1
-    rw [gt_iff_lt, ← gt_iff_lt, compare_pos_iff hx vb] at h1
-    rw [gt_iff_lt, ← gt_iff_lt, compare_pos_iff hx va]
-    intro hc
-    exact h1 (List.lt_trans (klt_of_lt_of_nlt hc hab) (lo_lt_hi b))
+  rcases hab with hab | ⟨rfl, rfl⟩
+  · constructor
+    · intro h1
+      rw [compare_neg_iff' hx vb]
+      rcases (compare_neg_iff' hx va).mp h1 with h1 | ⟨rfl, rfl⟩
+      · left; intro hc
+        exact h1 (List.lt_trans hab.trans_lo hc)
+      · left; exact hab
+    · intro h1
+      rw [gt_iff_lt, ← gt_iff_lt, compare_pos_iff' hx vb] at h1
+      rw [gt_iff_lt, ← gt_iff_lt, compare_pos_iff' hx va]
+      intro hc
+      exact h1 (List.lt_trans (klt_of_lt_of_nlt hc hab) (lo_lt_hi b))
+  · exact ⟨id, id⟩
 
 theorem mono_host {xs : List Bytes} (h : Sorted xs) (host : Bytes) : Mono (hostCompare host) xs := by
   refine List.Pairwise.imp_of_mem ?_ h.1
   intro a b ha hb hab
-  have va := (h.2 a ha).ne_nil
-  have vb := (h.2 b hb).ne_nil
-  unfold hostCompare
-  constructor
-  · intro h1
-    rw [mdn_neg_iff _ _ va] at h1
-    rw [mdn_neg_iff _ _ vb]
-    exact List.lt_trans h1 hab.trans_lo
-  · intro h1
-    rw [gt_iff_lt, ← gt_iff_lt, mdn_pos_iff _ _ vb] at h1
-    rw [gt_iff_lt, ← gt_iff_lt, mdn_pos_iff _ _ va]
-    intro hc
-    exact h1 (List.lt_trans (klt_of_lt_of_nlt hc hab) (lo_lt_hi b))
+  have va := (h.2 a ha).1
+  have vb := (h.2 b hb).1
+  rcases hab with hab | ⟨rfl, rfl⟩
+  · unfold hostCompare
+    constructor
+    · intro h1
+      rw [mdn_neg_iff _ _ va] at h1
+      rw [mdn_neg_iff _ _ vb]
+      exact List.lt_trans h1 hab.trans_lo
+    · intro h1
+      rw [gt_iff_lt, ← gt_iff_lt, mdn_pos_iff _ _ vb] at h1
+      rw [gt_iff_lt, ← gt_iff_lt, mdn_pos_iff _ _ va]
+      intro hc
+      exact h1 (List.lt_trans (klt_of_lt_of_nlt hc hab) (lo_lt_hi b))
+  · exact ⟨id, id⟩
 
 /-- what `remove` needs: in front of the value to be removed everything compares greater -/
 theorem remove_pairwise {xs : List Bytes} (h : Sorted xs) {old : Bytes} (ho : old ∈ xs) :
@@ -84,10 +98,12 @@ theorem remove_pairwise {xs : List Bytes} (h : Sorted xs) {old : Bytes} (ho : ol
   refine List.Pairwise.imp_of_mem ?_ h.1
   intro a v ha hv hav h0
   have vo := h.2 old ho
-  have hov := (compare_zero_iff vo (h.2 v hv)).mp h0
-  have : old = v := h.overlap_eq ho hv hov
+  have hov := (compare_zero_iff' vo (h.2 v hv)).mp h0
+  have : old = v := h.overlap_eq ho hv hov.1
   subst this
-  exact (compare_pos_iff vo (h.2 a ha)).mpr hav
+  rcases hav with hav | ⟨_, h2⟩
+  · exact (compare_pos_iff' vo (h.2 a ha)).mpr hav
+  · exact absurd ⟨h2, h2⟩ hov.2
 
 /-! ### interval containment -/
 
@@ -96,8 +112,21 @@ theorem In.mono {k : List Nat} {a b : Bytes} (h : In k a) (h1 : ¬ lo a < lo b) 
 
 /-! ### Merge -/
 
+/-- a value whose interval starts at `[0]` is the single dot (or empty) -/
+theorem eq_dot_of_lo {v : Bytes} (hv : Wf v) (h : lo v = [0]) : v = [DOT] := by
+  rcases wf_cases hv with vv | rfl
+  · exfalso
+    rw [lo_eq] at h
+    have hr : rkey (root v) = [] := by
+      cases hk : rkey (root v) with
+      | nil => rfl
+      | cons a l => rw [hk] at h; simp at h
+    have : root v = [] := by simpa [rkey] using hr
+    exact vv.1 this
+  · rfl
+
 theorem mergeLoop_spec (P : List Nat → Prop) :
-    ∀ (fuel : Nat) (t : Tree Bytes) (new : Bytes) (ev : List Event), Valid new → Sorted (inorder t) → t.size < fuel →
+    ∀ (fuel : Nat) (t : Tree Bytes) (new : Bytes) (ev : List Event), Wf new → Sorted (inorder t) → t.size < fuel →
       (∀ k, ((∃ s ∈ inorder t, In k s) ∨ In k new) ↔ P k) →
       ∃ t' ev', mergeLoop fuel t new ev = .ok t' ev' ∧ Sorted (inorder t') ∧ (∀ k, (∃ s ∈ inorder t', In k s) ↔ P k) := by
   intro fuel
@@ -111,8 +140,8 @@ theorem mergeLoop_spec (P : List Nat → Prop) :
     · -- a stored value overlaps the new one
       rw [hins]
       have vold := hs.2 old hold
-      have hov := (compare_zero_iff hnew vold).mp h0
-      rcases subset_spec hnew vold hov with ⟨hsub, hb1, hb2⟩ | ⟨hsub, hsub2, hb1, hb2⟩
+      have hov := (compare_zero_iff' hnew vold).mp h0
+      rcases subset_spec hnew.1 vold.1 hov.1 with ⟨hsub, hb1, hb2⟩ | ⟨hsub, hsub2, hb1, hb2⟩
       · -- the new value is covered already
         simp only [hsub, if_true]
         refine ⟨t', _, rfl, by rw [hin]; exact hs, ?_⟩
@@ -127,12 +156,24 @@ theorem mergeLoop_spec (P : List Nat → Prop) :
         simp only [hsub, hsub2, Bool.false_eq_true, if_false, if_true]
         have hs' : Sorted (inorder t') := by rw [hin]; exact hs
         have hold' : old ∈ inorder t' := by rw [hin]; exact hold
+        -- the stored value is not the single dot (nothing but the dot itself covers it, and two dots do not compare equal)
+        have hnd : old ≠ [DOT] := by
+          intro hd
+          subst hd
+          rw [lo_dot] at hb1
+          have hle : lo new = [0] :=
+            List.le_antisymm (List.not_lt.mp hb1) (List.not_lt.mp (not_lo_lt_zero new))
+          exact hov.2 ⟨eq_dot_of_lo hnew hle, rfl⟩
+        have vvold : Valid old := by
+          rcases wf_cases vold with h | h
+          · exact h
+          · exact absurd h hnd
         rcases remove_spec (compare old) t' (mono_compare hs' vold) (remove_pairwise hs' hold') with
           ⟨t'', hrem, _, hnz⟩ | ⟨t'', A, v, B, hrem, hAvB, hv0, hin''⟩
-        · exact absurd (compare_self vold) (hnz old hold')
+        · exact absurd (compare_self vvold) (hnz old hold')
         · rw [hrem]
           have hvmem : v ∈ inorder t' := by rw [hAvB]; simp
-          have hv : old = v := hs'.overlap_eq hold' hvmem ((compare_zero_iff vold (hs'.2 v hvmem)).mp hv0)
+          have hv : old = v := hs'.overlap_eq hold' hvmem ((compare_zero_iff' vold (hs'.2 v hvmem)).mp hv0).1
           subst hv
           have hsub' : (A ++ B).Sublist (A ++ old :: B) :=
             List.Sublist.append (List.Sublist.refl A) (List.sublist_cons_self old B)
@@ -165,17 +206,17 @@ theorem mergeLoop_spec (P : List Nat → Prop) :
       · rw [hin]
         rw [hAB] at hs
         have hp := List.pairwise_append.mp hs.1
-        have hvA : ∀ a ∈ A, Valid a := fun a ha => hs.2 a (by simp [ha])
-        have hvB : ∀ b ∈ B, Valid b := fun b hb => hs.2 b (by simp [hb])
+        have hvA : ∀ a ∈ A, Wf a := fun a ha => hs.2 a (by simp [ha])
+        have hvB : ∀ b ∈ B, Wf b := fun b hb => hs.2 b (by simp [hb])
         refine ⟨?_, ?_⟩
         · rw [List.pairwise_append]
           refine ⟨hp.1, ?_, ?_⟩
           · rw [List.pairwise_cons]
-            exact ⟨fun b hb => (compare_neg_iff hnew (hvB b hb)).mp (hB b hb), hp.2.1⟩
+            exact ⟨fun b hb => (compare_neg_iff' hnew (hvB b hb)).mp (hB b hb), hp.2.1⟩
           · intro a ha b hb
             simp only [List.mem_cons] at hb
             rcases hb with rfl | hb
-            · exact (compare_pos_iff hnew (hvA a ha)).mp (hA a ha)
+            · exact Or.inl ((compare_pos_iff' hnew (hvA a ha)).mp (hA a ha))
             · exact hp.2.2 a ha b hb
         · intro x hx
           simp only [List.mem_append, List.mem_cons] at hx
@@ -199,8 +240,7 @@ theorem mergeLoop_spec (P : List Nat → Prop) :
             · exact ⟨s, by simp [hsm], hk⟩
           · exact ⟨new, by simp, h⟩
 
-
-theorem merge_spec (P : List Nat → Prop) (t : Tree Bytes) (new : Bytes) (ev : List Event) (hnew : Valid new)
+theorem merge_spec (P : List Nat → Prop) (t : Tree Bytes) (new : Bytes) (ev : List Event) (hnew : Wf new)
     (hs : Sorted (inorder t)) (hP : ∀ k, ((∃ s ∈ inorder t, In k s) ∨ In k new) ↔ P k) :
     ∃ t' ev', merge t new ev = .ok t' ev' ∧ Sorted (inorder t') ∧ (∀ k, (∃ s ∈ inorder t', In k s) ↔ P k) :=
   mergeLoop_spec P (t.size + 1) t new ev hnew hs (Nat.lt_succ_self _) hP
@@ -250,6 +290,23 @@ theorem valid_fold (v : Bytes) : Valid (fold v) ↔ Valid v := by
   · rintro ⟨h1, h2⟩; exact ⟨fun h => h1 (by simp [h, fold]), h2⟩
   · rintro ⟨h1, h2⟩; exact ⟨fun h => h1 (by simpa [fold] using h), h2⟩
 
+theorem multiDot_fold (v : Bytes) : multiDot (fold v) = multiDot v := by
+  match v with
+  | [] => rfl
+  | [_] => rfl
+  | a :: b :: r =>
+    have ha := lower_eq_dot_iff a
+    have hb := lower_eq_dot_iff b
+    simp only [fold, List.map_cons, multiDot]
+    by_cases h1 : a = DOT <;> by_cases h2 : b = DOT <;> simp_all
+
+theorem wf_fold (v : Bytes) : Wf (fold v) ↔ Wf v := by
+  unfold Wf
+  rw [multiDot_fold]
+  constructor
+  · rintro ⟨h1, h2⟩; exact ⟨fun h => h1 (by simp [h, fold]), h2⟩
+  · rintro ⟨h1, h2⟩; exact ⟨fun h => h1 (by simpa [fold] using h), h2⟩
+
 /-! ### parse and match -/
 
 theorem Valid.not_multiDot {v : Bytes} (h : Valid v) : multiDot v = false := by
@@ -271,14 +328,14 @@ def Holds (vals : List Bytes) (t : Tree Bytes) : Prop :=
   Sorted (inorder t) ∧ ∀ k, (∃ s ∈ inorder t, In k s) ↔ (∃ v ∈ vals, In k v)
 
 theorem parseFrom_spec : ∀ (toks : List Bytes) (t : Tree Bytes) (ev : List Event) (seen : List Bytes),
-    (∀ tok ∈ toks, Valid tok) → Holds seen t →
+    (∀ tok ∈ toks, Wf tok) → Holds seen t →
     ∃ t' ev', parseFrom toks t ev = .ok t' ev' ∧ Holds (seen ++ toks) t' := by
   intro toks
   induction toks with
   | nil => intro t ev seen _ h; exact ⟨t, ev, rfl, by simpa using h⟩
   | cons tok rest ih =>
     intro t ev seen hv h
-    have hvt : Valid (fold tok) := (valid_fold tok).mpr (hv tok (by simp))
+    have hvt : Wf (fold tok) := (wf_fold tok).mpr (hv tok (by simp))
     obtain ⟨t1, ev1, hm, hs1, hc1⟩ := merge_spec (fun k => ∃ v ∈ seen ++ [tok], In k v) t (fold tok) ev hvt h.1 (by
       intro k
       rw [h.2 k, in_fold]
@@ -293,12 +350,12 @@ theorem parseFrom_spec : ∀ (toks : List Bytes) (t : Tree Bytes) (ev : List Eve
         · exact Or.inr hk)
     obtain ⟨t2, ev2, hp, hh⟩ := ih t1 ev1 (seen ++ [tok]) (fun x hx => hv x (by simp [hx])) ⟨hs1, hc1⟩
     refine ⟨t2, ev2, ?_, by simpa using hh⟩
-    rw [parseFrom, hvt.not_multiDot, Bool.and_false]
+    rw [parseFrom, hvt.2, Bool.and_false]
     simp only [Bool.false_eq_true, if_false, hm]
     exact hp
 
 /-- `ACLDomainData::parse` on well-formed values always succeeds and establishes the invariant. -/
-theorem parse_spec (vals : List Bytes) (hv : ∀ v ∈ vals, Valid v) :
+theorem parse_spec (vals : List Bytes) (hv : ∀ v ∈ vals, Wf v) :
     ∃ t ev, parse vals = .ok t ev ∧ Holds vals t := by
   have := parseFrom_spec vals .nil [] [] hv ⟨⟨by simp [inorder], by simp [inorder]⟩, by simp [inorder]⟩
   simpa [parse] using this
@@ -314,14 +371,19 @@ theorem matchHost_spec (vals : List Bytes) (hne : ∀ v ∈ vals, v ≠ []) (t :
     rw [find_isSome_iff _ _ (mono_host h.1 host)]
     have : (∃ y ∈ inorder t, hostCompare host y = 0) ↔ (∃ s ∈ inorder t, In (hostKey host) s) := by
       constructor
-      · rintro ⟨y, hy, h0⟩; exact ⟨y, hy, (mdn_zero_iff host y (h.1.2 y hy).ne_nil).mp h0⟩
-      · rintro ⟨y, hy, h0⟩; exact ⟨y, hy, (mdn_zero_iff host y (h.1.2 y hy).ne_nil).mpr h0⟩
+      · rintro ⟨y, hy, h0⟩; exact ⟨y, hy, (mdn_zero_iff host y (h.1.2 y hy).1).mp h0⟩
+      · rintro ⟨y, hy, h0⟩; exact ⟨y, hy, (mdn_zero_iff host y (h.1.2 y hy).1).mpr h0⟩
     rw [this, h.2]
     constructor
     · rintro ⟨v, hv, hk⟩
       exact ⟨v, hv, (in_iff_matches v host (hne v hv)).mp hk⟩
     · rintro ⟨v, hv, hm⟩
       exact ⟨v, hv, (in_iff_matches v host (hne v hv)).mpr hm⟩
+
+/-- the invariant speaks about the in-order sequence only: any tree with the same sequence has it -/
+theorem Holds.of_inorder_eq {vals : List Bytes} {t t' : Tree Bytes} (h : Holds vals t) (he : inorder t' = inorder t) :
+    Holds vals t' := by
+  unfold Holds at h ⊢; rw [he]; exact h
 
 theorem matchAll_fst_holds (vals : List Bytes) (hne : ∀ v ∈ vals, v ≠ []) :
     ∀ (hosts : List Bytes) (t : Tree Bytes) (acc : List Bool), Holds vals t → Holds vals (matchAll t hosts acc).1 := by
@@ -333,8 +395,10 @@ theorem matchAll_fst_holds (vals : List Bytes) (hne : ∀ v ∈ vals, v ≠ []) 
     rw [matchAll]
     exact ih _ _ (matchHost_spec vals hne t h x).1
 
-theorem Valid_examples_ne_nil {vals : List Bytes} (hv : ∀ v ∈ vals, Valid v) : ∀ v ∈ vals, v ≠ [] :=
-  fun v h => (hv v h).ne_nil
+theorem wf_all_ne_nil {vals : List Bytes} (hv : ∀ v ∈ vals, Wf v) : ∀ v ∈ vals, v ≠ [] :=
+  fun v h => (hv v h).1
+
+instance (v : Bytes) : Decidable (Wf v) := by unfold Wf; exact inferInstance
 
 instance (v h : Bytes) : Decidable (Matches v h) := by unfold Matches; exact inferInstance
 
